@@ -53,6 +53,7 @@ type RetryOpts struct {
 	NoDisconnect        bool   `json:"noDisconnect,omitempty"`
 	DirectQoS0          bool   `json:"directQoS0,omitempty"`
 	HookEvents          bool   `json:"hookEvents,omitempty"`
+	HoldLoopWakeMs      int    `json:"holdLoopWakeMs,omitempty"` // delay the reconnect loop when it wakes up (hook reconnLoopWake): the keep-alive goroutine goes first
 	SampleAfterMs       int    `json:"sampleAfterMs,omitempty"`
 	DisconnectAt        string `json:"disconnectAt,omitempty"`
 	Hammer              bool   `json:"hammer,omitempty"`              // background goroutines keep calling Ping, Stats, Client, Handle (race-detector runs)
@@ -137,6 +138,17 @@ func runRetry(sc *RetryScenario) *RetryResult {
 	}
 	if sc.Opts.HookEvents {
 		installHookRecorder(rec)
+	}
+	if sc.Opts.HoldLoopWakeMs > 0 {
+		// process-global hook: such scenarios run one at a time
+		hold := ms(sc.Opts.HoldLoopWakeMs, 0)
+		mqtt.VerifSetHook(func(point string, args ...int64) {
+			if point == "reconnLoopWake" {
+				rec.Emit(netsim.Event{"e": "H:" + point})
+				time.Sleep(hold)
+			}
+		})
+		defer mqtt.VerifSetHook(nil)
 	}
 
 	// register gates before anything runs
